@@ -519,6 +519,15 @@ def driver_legs(tier, seed, tmpdir, only=None):
         recs, rc, tail, wall = _pytest_leg(tmpdir)
         records, cov = _suite_records(recs, tier, seed)
         cov['wall_s'] = round(wall, 1)
+        # M6 contracts evaluated while the suite ran (owned by other properties: shown, not judged here)
+        ce, cb = {}, {}
+        for r in recs:
+            rep = (r.get('contracts') or {}) if isinstance(r, dict) else {}
+            for k, v in rep.get('evaluations', {}).items():
+                ce[k] = ce.get(k, 0) + v
+            for b in rep.get('broken', []):
+                cb[b['contract']] = cb.get(b['contract'], 0) + 1
+        cov['contracts_under_suite'] = {'evaluations': ce, 'broken': cb}
         cov['pytest_exit'] = rc
         cov['pytest_tail'] = tail.strip().splitlines()[-1:] if isinstance(tail, str) else tail
         inc2 = []
